@@ -7,13 +7,13 @@ import (
 	"strings"
 	"time"
 
+	"github.com/safing/portbase/api"
 	"github.com/safing/portbase/database"
 	"github.com/safing/portbase/database/query"
-	"github.com/safing/portbase/api"
 	"github.com/safing/portbase/database/record"
 	"github.com/safing/portbase/runtime"
-	"github.com/safing/portbase/verifsim/simrt"
 	"github.com/safing/portbase/verifsim/simkit"
+	"github.com/safing/portbase/verifsim/simrt"
 )
 
 // C03Plan: a privileged writer and an unprivileged client.
@@ -29,14 +29,14 @@ type C03Plan struct {
 
 // C03Op is one step.
 type C03Op struct {
-	Who     string `json:"who"` // priv | client
-	Kind    string `json:"k"`
-	Key     int    `json:"key"`
-	Flags   int    `json:"flags,omitempty"`
-	Seed    int    `json:"seed,omitempty"`
-	Prefix  int    `json:"prefix,omitempty"`
-	Wrapped bool   `json:"wrapped,omitempty"`
-	GetFault int   `json:"get_fault,omitempty"` // backend simfault: the n-th storage read during this client operation fails
+	Who      string `json:"who"` // priv | client
+	Kind     string `json:"k"`
+	Key      int    `json:"key"`
+	Flags    int    `json:"flags,omitempty"`
+	Seed     int    `json:"seed,omitempty"`
+	Prefix   int    `json:"prefix,omitempty"`
+	Wrapped  bool   `json:"wrapped,omitempty"`
+	GetFault int    `json:"get_fault,omitempty"` // backend simfault: the n-th storage read during this client operation fails
 }
 
 var c03ClientKinds = []string{"get", "exists", "query", "feed", "insert", "setabs", "setrel", "makesecret", "makecrown", "delete", "purge", "putmany", "put", "putnew", "rtget", "rtquery", "rtfeed", "apiget", "apiquery", "apisub", "apiupdate", "apiinsert", "apidelete"}
